@@ -11,9 +11,25 @@
 //! nothing in a normal build refers to this file.
 
 use allocative::Allocative;
+use serde::{Deserialize, Deserializer, Serialize, Serializer};
 
 /// capacity of the table models. exceeding it is an assertion failure, never silent.
 pub const CAP: usize = 8;
+
+/// runs `$body` for `$i` = 0..CAP without a loop, so that lookups add no loop for the bounded
+/// model checker to unwind (callers pick their unwinding bound for their own loops only).
+macro_rules! for_each_slot {
+    ($i:ident, $body:block) => {{
+        { let $i: usize = 0; $body }
+        { let $i: usize = 1; $body }
+        { let $i: usize = 2; $body }
+        { let $i: usize = 3; $body }
+        { let $i: usize = 4; $body }
+        { let $i: usize = 5; $body }
+        { let $i: usize = 6; $body }
+        { let $i: usize = 7; $body }
+    }};
+}
 
 #[derive(Clone, Debug)]
 pub struct HashMap<K, V> {
@@ -66,15 +82,13 @@ impl<K, V> HashMap<K, V> {
 
 impl<K: PartialEq, V> HashMap<K, V> {
     pub fn get(&self, k: &K) -> Option<&V> {
-        let mut i = 0;
-        while i < CAP {
+        for_each_slot!(i, {
             if let Some((sk, sv)) = &self.slots[i] {
                 if sk == k {
                     return Some(sv);
                 }
             }
-            i += 1;
-        }
+        });
         None
     }
 
@@ -83,14 +97,20 @@ impl<K: PartialEq, V> HashMap<K, V> {
     }
 
     pub fn insert(&mut self, k: K, v: V) -> Option<V> {
-        let mut i = 0;
-        while i < CAP {
-            if let Some((sk, sv)) = &mut self.slots[i] {
-                if *sk == k {
-                    return Some(std::mem::replace(sv, v));
+        let mut at: Option<usize> = None;
+        for_each_slot!(i, {
+            if at.is_none() {
+                if let Some((sk, _)) = &self.slots[i] {
+                    if *sk == k {
+                        at = Some(i);
+                    }
                 }
             }
-            i += 1;
+        });
+        if let Some(i) = at {
+            if let Some((_, sv)) = &mut self.slots[i] {
+                return Some(std::mem::replace(sv, v));
+            }
         }
         assert!(self.len < CAP, "verification table model capacity exceeded");
         let at = self.len;
@@ -183,15 +203,13 @@ impl<T> HashSet<T> {
 
 impl<T: PartialEq> HashSet<T> {
     pub fn contains(&self, t: &T) -> bool {
-        let mut i = 0;
-        while i < CAP {
+        for_each_slot!(i, {
             if let Some(s) = &self.slots[i] {
                 if s == t {
                     return true;
                 }
             }
-            i += 1;
-        }
+        });
         false
     }
 
@@ -238,5 +256,34 @@ impl<T> IntoIterator for HashSet<T> {
 impl<T: Allocative> Allocative for HashSet<T> {
     fn visit<'a, 'b: 'a>(&self, visitor: &'a mut allocative::Visitor<'b>) {
         visitor.visit_simple_sized::<Self>()
+    }
+}
+
+// serde support so that types deriving Serialize/Deserialize over a map field still compile when
+// the import is swapped. never executed by a verification harness.
+
+impl<K: Serialize, V: Serialize> Serialize for HashMap<K, V> {
+    fn serialize<S: Serializer>(&self, serializer: S) -> Result<S::Ok, S::Error> {
+        serializer.collect_map(self.iter())
+    }
+}
+
+impl<'de, K: Deserialize<'de> + PartialEq, V: Deserialize<'de>> Deserialize<'de> for HashMap<K, V> {
+    fn deserialize<D: Deserializer<'de>>(deserializer: D) -> Result<Self, D::Error> {
+        let pairs = Vec::<(K, V)>::deserialize(deserializer)?;
+        Ok(pairs.into_iter().collect())
+    }
+}
+
+impl<T: Serialize> Serialize for HashSet<T> {
+    fn serialize<S: Serializer>(&self, serializer: S) -> Result<S::Ok, S::Error> {
+        serializer.collect_seq(self.iter())
+    }
+}
+
+impl<'de, T: Deserialize<'de> + PartialEq> Deserialize<'de> for HashSet<T> {
+    fn deserialize<D: Deserializer<'de>>(deserializer: D) -> Result<Self, D::Error> {
+        let items = Vec::<T>::deserialize(deserializer)?;
+        Ok(items.into_iter().collect())
     }
 }
